@@ -121,7 +121,7 @@ pub fn registry() -> Vec<Box<dyn Ops>> {
 }
 
 fn enc_case(idx: usize, reg: &[Box<dyn Ops>], g: &mut StdRng) -> Value {
-    let nargs = *[1usize, 1, 1, 1, 2, 3, 0].choose(g).unwrap();
+    let nargs = if g.gen_range(0..250) == 0 { 30 } else { *[1usize, 1, 1, 1, 2, 3, 0].choose(g).unwrap() };   // rarely: many arguments, a type table beyond 64 entries
     let mut d = Decl::new();
     let mut names = vec![]; let mut wts = vec![]; let mut vals = vec![];
     // a builder per attempt and a twin fed with the same values (determinism)
@@ -194,7 +194,7 @@ fn dec_case(idx: usize, reg: &[Box<dyn Ops>], g: &mut crate::gen::G) -> Value {
     json!({"idx": idx, "kind": "dec", "rust": e.name(), "family": family(&e.name()), "host": e.host(), "bound": e.bound(), "env": nodes, "t": t, "blob": bytesj(&bytes), "native": native, "untyped": untyped, "untyped_real": untyped_real})
 }
 /// a type with the same byte layout as (part of) t but a different meaning
-fn twin(env: &candid::types::TypeEnv, t: &candid::types::Type, depth: u32) -> candid::types::Type {
+pub fn twin(env: &candid::types::TypeEnv, t: &candid::types::Type, depth: u32) -> candid::types::Type {
     use candid::types::{Field, TypeInner::*};
     if depth == 0 { return t.clone(); }
     let t = env.trace_type(t).unwrap();
